@@ -26,6 +26,15 @@ pub fn run(ctx: &Ctx) -> i32 {
     total.merge(run_generated(ctx, &TlsPairEngine, "tls-pairs", tls_pair_strategy, ctx.cases(6_000, 300_000), 300));
     let sock_ctx = Ctx { threads: 8, ..ctx.clone() };
     total.merge(run_generated(&sock_ctx, &PairEngine, "tcp-unix-pairs", || pair_strategy(2..4), ctx.cases(1_500, 60_000), 300));
+    if ctx.tier == Tier::Thorough && std::env::var_os("VERIF_NO_FUZZ").is_none() {
+        // coverage-guided leg: byte input decoded into an adapter program and inner scripts
+        let seeds: Vec<Vec<u8>> = vec![
+            vec![3, 5, 9, 4, 0x83, 4, 0, 0, 0x85, 2, 2, 0, 0x80, 3, 0, 9, 3, 1, 0x85, 2, 5, 3, 4, 9, 6, 0, 7, 0],
+            vec![0, 0, 6, 3, 3, 7, 3, 1, 2, 0, 3, 2, 0, 1, 0x80, 1, 0, 1, 0, 0, 1, 3, 0, 4],
+            (0..160u32).map(|i| (i * 41 % 251) as u8).collect(),
+        ];
+        total.merge(run_fuzz_leg(ctx, "fz_io", "iomodel", None, ctx.cases(0, 200_000), 200, seeds));
+    }
     finish(
         ctx,
         started,
